@@ -51,13 +51,13 @@ sim("C09", "events of a source are a subset of its interests, each bit means the
     "stream-state lattice (15 states) x 5 option sets x 16 masks with read/write/wait(0) probes; two-source layouts; random histories.",
     "Coq theorems (event-bit mapping) + state-lattice correspondence + probe monitor")
 sim("C10", "per-type constructor facts (HANDLE/STDOUT make no call and yield the caller's/child's descriptor; DISCARD/PATH open flags; PIPE ends by direction), a parent end exists only for PIPE, the regenerated installation order.",
-    "that descriptors 0/1/2 of the exec image refer to the requested objects (child side of fork: dup2/close-on-exec logic).",
+    "that descriptors 0/1/2 of the exec image refer to exactly the requested objects (the child-side theorem C11_child_image_descriptors shows the dup2/close-on-exec logic leaves only 0,1,2 and the exit handle open, not yet which object each refers to).",
     "all 7x7x8 type combinations + shorthands with std descriptors open, and x the 7 closed-std layouts; closed parent FILE streams.",
     "Coq theorems (redirect constructors) + exhaustive configuration correspondence + image monitor")
-sim("C11", "the regenerated keep list, the loop range covers every number up to limit-1, kept descriptors are skipped without a call, get_max_fd.",
-    "that the image's descriptor set is {0,1,2,exit} for every parent table (child side of fork).",
+sim("C11", "THE CHILD SIDE FOR EVERY PARENT TABLE (C11_child_image_descriptors): for any descriptor table, flags, limit L bounding the table, child ends and error pipes, in any fault-free world, if the forked child reaches a successful exec every descriptor of the image is 0, 1, 2 or the exit handle, and in exec mode the child code never returns to its caller — through signal reset, mask, limit, the closing loop, moving low child ends away, the dup2 loop with close-on-exec handling, exit handle, chdir, environ, exec and every natural failure exit; the closing loop characterised pointwise for every table (C11_close_loop_all_tables) and shown to be what the monadic loop computes (state-aware Hoare triple); the regenerated keep list; get_max_fd.",
+    "injected faults inside the child (a failed F_GETFD makes the code skip a close); that the parent-side invariants assumed of the table at fork (error pipes close-on-exec, all descriptors below the limit) hold — both decided by the tie's families.",
     "random descriptor tables incl. limit-1/limit-2/dense, limits 8..256, flags random, sibling handles, limit raised between starts, huge/infinite limits.",
-    "Coq theorems (keep list, loop range) + random-table correspondence + image-descriptor monitor")
+    "Coq theorem over the whole child side of fork for all descriptor tables (state-aware Hoare logic over the world model) + random-table correspondence + image-descriptor monitor")
 sim("C12", "the regenerated reset-loop bounds cover signals 1..31, EINVAL tolerated only, the block-all set, exec keeps only ignored dispositions (world).",
     "that every return path of start restores mask/dispositions/cwd/environment (parent side of process_fork under faults).",
     "4 masks x 3 disposition tables x single-fault enumeration of 17 start scenarios.",
